@@ -173,6 +173,13 @@ func VH_C08_Insert(p []int) {
 func VH_C08_Traverse(p []int) {
 	vhPreMode = 2
 	pre := vhArbitraryStack(p[0], p[1], true, vhOptMask, 2, 2)
+	nested := len(p) > 3 && p[3] == 1 && pre.n > 0
+	inner := Or().Push("n0", "n1")
+	if nested {
+		// position 0 holds a Stack: the only way down
+		pre.model[0] = inner
+		(*pre.s.stack)[1] = inner
+	}
 	snap := vhSnapCfg(pre.cfg)
 	idx := make([]int, p[2])
 	for k := range idx {
@@ -197,10 +204,22 @@ func VH_C08_Traverse(p []int) {
 			verifAssert(vhSame(v, pre.model[pos]), "addressed-value")
 		}
 	}
-	if len(idx) >= 2 {
+	if len(idx) >= 2 && !nested {
 		// every element of a flat stack is a leaf: longer paths must fail
 		verifAssert(!ok, "leaf-not-descendable")
 		verifAssert(v == nil, "leaf-not-descendable-nil")
+	}
+	if len(idx) == 2 && nested {
+		neg, fwd := pre.cfg.opt&negidx != 0, pre.cfg.opt&fwdidx != 0
+		if pos := vhTranslate(idx[0], pre.n, neg, fwd); pos == 0 && (idx[1] == 0 || idx[1] == 1) {
+			verifAssert(ok, "nested-addressed-succeeds")
+			verifAssert(vhSame(v, []any{"n0", "n1"}[idx[1]]), "nested-addressed-value")
+		} else {
+			// a first index that addresses nothing (or a leaf) ends the walk:
+			// later indices are never applied to some other level
+			verifAssert(!ok, "nested-unaddressed-fails")
+			verifAssert(v == nil, "nested-unaddressed-nil")
+		}
 	}
 	verifReach("end")
 }
@@ -323,6 +342,38 @@ func VH_C08_EqualAwkward(p []int) {
 		_ = x.IsEqual(y)
 		_ = y.IsEqual(x)
 		_ = And().Push(x).IsEqual(And().Push(y))
+	}
+	verifReach("end")
+}
+
+// Every value of the catalogue as the ONLY element of an envelope, as the
+// first element before an envelope, and as a Condition's expression: the
+// methods that walk and rearrange trees (Reveal, Defrag, Traverse, String,
+// Unmarshal, IsEqual, Transfer) meet it in the positions they treat specially.
+func VH_C08_WalkersAwkward(p []int) {
+	v := vhAnyValue(nondetChoice(vhAnyCount))
+	lone := func() Stack { s := Or(); *s.stack = append(*s.stack, v); return s }
+	trees := []Stack{
+		And().Push("a", lone(), "b"),
+		And().Push(Cond("k", Eq, v), Or().Push(And().Push("x", "y"))),
+		List().Push(lone()),
+	}
+	t0 := And().SetMutex()
+	*t0.stack = append(*t0.stack, v, Or().Push(And().Push("x", "y")))
+	trees = append(trees, t0)
+	for _, t := range trees {
+		t.Reveal()
+		t.Defrag()
+		t.Traverse(0, 0)
+		t.Traverse(1, 0, 0)
+		_ = t.String()
+		_, _ = t.Unmarshal()
+		_ = t.IsEqual(t)
+		_ = t.IsNesting()
+		dst := List()
+		t.Transfer(dst)
+		verifAssert(t.IsInit(), "still-initialised")
+		vhAssertUnlocked(t, "after")
 	}
 	verifReach("end")
 }
